@@ -118,9 +118,23 @@ static inline ld rabs1(ref_t v) { return fabsl(creall(v)) + fabsl(cimagl(v)); }
 #define GSEQU       FN(gsequ)
 #define LAQGS       FN(laqgs)
 #define LANGS       FN(langs)
-#define SP_GEMV     sp_##FN(gemv)
-#define SP_GEMM     sp_##FN(gemm)
-#define SP_TRSV     sp_##FN(trsv)
+#if defined(PREC_S)
+#define SP_GEMV sp_sgemv
+#define SP_GEMM sp_sgemm
+#define SP_TRSV sp_strsv
+#elif defined(PREC_D)
+#define SP_GEMV sp_dgemv
+#define SP_GEMM sp_dgemm
+#define SP_TRSV sp_dtrsv
+#elif defined(PREC_C)
+#define SP_GEMV sp_cgemv
+#define SP_GEMM sp_cgemm
+#define SP_TRSV sp_ctrsv
+#else
+#define SP_GEMV sp_zgemv
+#define SP_GEMM sp_zgemm
+#define SP_TRSV sp_ztrsv
+#endif
 #define PIVOTGROWTH FN(PivotGrowth)
 #define CREATE_COMPCOL   FN(Create_CompCol_Matrix)
 #define CREATE_COMPROW_AS_NR FN(Create_CompCol_Matrix)
@@ -194,6 +208,8 @@ uint64_t csc_hash(const csc_t *A);
 
 /* generators (gen.c): returns 0 on success */
 int gen_matrix(const case_t *c, rng_t *r, csc_t *A);
+extern int_t gen_onesK[64]; extern int gen_nones;
+long ones_expected_info(const int_t *perm_c);
 void gen_rhs(rng_t *r, int_t n, int_t nrhs, int_t ldb, elem_t *B, const char *mode);
 
 /* ---------- sp_ienv / xerbla overrides (ov.c) ---------- */
@@ -241,6 +257,7 @@ typedef struct {
 /* structural validation of L (SCP) / U (NCP) / perms; returns #problems, records via jo_fail(prefix..) */
 int  validate_LU(const SuperMatrix *L, const SuperMatrix *U, const int_t *perm_r, const int_t *perm_c,
                  int_t n, const char *keyprefix, long *nsuper_out, long *maxsup_out);
+int  walk_LU(const SuperMatrix *L, const SuperMatrix *U, int_t n, const char *keyprefix);
 int  lud_extract(const SuperMatrix *L, const SuperMatrix *U, int_t n, lud_t *out);
 void lud_free(lud_t *d);
 /* E = Pr*G*Pc - L*U check; W=|L||U| returned (n x n, caller frees) ; returns max ratio E/bound */
